@@ -232,7 +232,9 @@ def check(ctx, rep):
     fnc = prog.fn("nocancel:f_nocancel")
     ps, it = ctx.paths(fnc, None, depth=0)
     made = [e for p in ps for e in p.calls() if e.d["func"] == ("class", nc.key)]
-    rep.ob("R-NOCANCEL", "f_nocancel returns the shield", bool(made) and all(e.d["args"][:1] == (("param", "future"),) for e in made), "f_nocancel must wrap its argument in NoCancelFuture", where_of(fnc))
+    o_, ninit = nc.lookup("__init__")
+    dparam = ninit.params[1] if ninit is not None and len(ninit.params) > 1 else None
+    rep.ob("R-NOCANCEL", "f_nocancel returns the shield", bool(made) and all(roles.bound(e, prog).get(dparam) == ("param", fnc.params[0]) for e in made), "f_nocancel must wrap its argument in NoCancelFuture", where_of(fnc))
 
 
 FUTURE_API = {"cancel", "cancelled", "running", "done", "result", "exception", "add_done_callback", "set_running_or_notify_cancel", "set_result", "set_exception"}
